@@ -409,6 +409,265 @@ def run_continuous(cfg):
     return out
 
 
+# ------------------------------------------------------------------ regions with random parameters through the scenario path
+_CANON = {}
+
+
+def canon(shape):
+    """canonical frame of the base shapes used by c03.gen_scenario: (bbox centre, extents, footprint polygon or None, z range)"""
+    if shape not in _CANON:
+        if shape in ("box", "meshbox"):
+            _CANON[shape] = (numpy.zeros(3), numpy.ones(3), None, (-0.5, 0.5))
+        elif shape == "sphere":
+            _CANON[shape] = (numpy.zeros(3), numpy.ones(3), None, (-0.5, 0.5))
+        elif shape == "L":
+            _CANON[shape] = (numpy.array([1, 1, 0.5]), numpy.array([2.0, 2.0, 1.0]),
+                             shapely.geometry.Polygon([(0, 0), (2, 0), (2, 1), (1, 1), (1, 2), (0, 2)]), (0.0, 1.0))
+        elif shape == "U":
+            _CANON[shape] = (numpy.array([1.5, 1, 0.5]), numpy.array([3.0, 2.0, 1.0]),
+                             shapely.geometry.Polygon([(0, 0), (3, 0), (3, 2), (2, 2), (2, 1), (1, 1), (1, 2), (0, 2)]), (0.0, 1.0))
+        elif shape == "cyl":
+            import trimesh
+            m = trimesh.creation.cylinder(radius=1, height=1, sections=12)
+            hull = shapely.geometry.MultiPoint([(float(x), float(y)) for x, y, _ in m.vertices]).convex_hull
+            _CANON[shape] = (numpy.array(m.bounds).mean(axis=0), numpy.array(m.extents, dtype=float), hull, (-0.5, 0.5))
+    return _CANON[shape]
+
+
+def _ev(e, params):
+    return float(params[e[1]]) if isinstance(e, list) else float(e)
+
+
+def _rot(angles):
+    from scipy.spatial.transform import Rotation
+    return Rotation.from_euler("ZXY", list(angles)).as_matrix()
+
+
+def mesh_frame(reg, params, p):
+    """the sample in the canonical frame of the region's base shape, for the CONCRETE parameters of this scene"""
+    cc, ext, _, _ = canon(reg["shape"])
+    pos = numpy.array([_ev(e, params) for e in reg["pos"]])
+    M = _rot([_ev(e, params) for e in reg["rot"]]) if reg["rot"] is not None else numpy.eye(3)
+    S = numpy.array([_ev(e, params) for e in reg["dims"]]) / ext if reg["dims"] is not None else numpy.ones(3)
+    w = (M.T @ (numpy.array(p, dtype=float) - pos)) / S
+    return w + cc if reg["center"] else w - numpy.array(reg["offset"], dtype=float)
+
+
+def mesh_member(reg, w, eps=2e-6):
+    shape = reg["shape"]
+    cc, ext, poly, (zlo, zhi) = canon(shape)
+    if shape in ("box", "meshbox"):
+        inside = bool((numpy.abs(w) <= 0.5 + eps).all())
+        onb = abs(float(numpy.max(numpy.abs(w))) - 0.5) <= eps
+    elif shape == "sphere":
+        inside = float(numpy.linalg.norm(w)) <= 0.5 + eps
+        onb = True
+    else:
+        pt = shapely.geometry.Point(float(w[0]), float(w[1]))
+        bd = float(poly.boundary.distance(pt))
+        inside = (bool(poly.contains(pt)) or bd <= eps) and zlo - eps <= w[2] <= zhi + eps
+        onb = bd <= eps or abs(w[2] - zlo) <= eps or abs(w[2] - zhi) <= eps
+    return inside and (onb if reg["surface"] else True)
+
+
+def mesh_cell(reg, w):
+    """index of the equal-measure cell (canonical frame) holding w, or None"""
+    shape = reg["shape"]
+    cc, ext, poly, (zlo, zhi) = canon(shape)
+    if reg["surface"]:
+        if shape not in ("box", "meshbox"):
+            return None
+        i = int(numpy.argmax(numpy.abs(w)))
+        return 2 * i + (1 if w[i] > 0 else 0)
+    if shape in ("box", "meshbox"):
+        idx = [min(1, max(0, int((w[i] + 0.5) * 2))) for i in range(3)]
+        return (idx[0] * 2 + idx[1]) * 2 + idx[2]
+    if shape in ("sphere", "cyl"):
+        return (w[0] > 0) * 4 + (w[1] > 0) * 2 + (w[2] > (zlo + zhi) / 2 if shape == "cyl" else w[2] > 0)
+    sq = [(0, 0), (1, 0), (0, 1)] if shape == "L" else [(0, 0), (1, 0), (2, 0), (0, 1), (2, 1)]
+    key = (min(int(ext[0]) - 1, max(0, int(math.floor(w[0])))), min(int(ext[1]) - 1, max(0, int(math.floor(w[1])))))
+    if key not in sq:
+        return None
+    return sq.index(key) * 2 + (1 if w[2] > 0.5 else 0)
+
+
+def mesh_cells_expected(reg):
+    shape = reg["shape"]
+    if reg["surface"]:
+        if shape not in ("box", "meshbox"):
+            return None
+        d = [float(e) for e in reg["dims"]] if reg["dims"] is not None else [1.0, 1.0, 1.0]
+        a = [d[1] * d[2], d[1] * d[2], d[0] * d[2], d[0] * d[2], d[0] * d[1], d[0] * d[1]]
+        return [x / sum(a) for x in a]
+    n = {"box": 8, "meshbox": 8, "sphere": 8, "cyl": 8, "L": 6, "U": 10}[shape]
+    return [1.0 / n] * n
+
+
+def view_frame(view, pose, p):
+    pos, M = pose
+    eye = numpy.array(pos) + numpy.array(M) @ numpy.array(view["cam"], dtype=float)
+    q = numpy.array(M).T @ (numpy.array(p, dtype=float) - eye)
+    rho = float(numpy.linalg.norm(q))
+    az = math.atan2(-q[0], q[1])
+    alt = math.atan2(q[2], math.hypot(q[0], q[1]))
+    return rho, az, alt
+
+
+def view_member(view, rho, az, alt, p):
+    h, v = math.radians(view["angles"][0]), math.radians(view["angles"][1])
+    D = view["dist"]
+    slack = 0.0
+    if view["mode"] != "in_visibleRegion":      # a tiny object (0.01 cube) is visible when any part of it is
+        slack = 0.02
+    ok = rho <= D * (1 + 1e-6) + slack
+    aslack = 1e-3 + (slack / max(rho, slack) if slack else 0.0)
+    if h < math.tau - 0.017:
+        ok = ok and abs(az) <= h / 2 + aslack
+    if v < math.pi - 0.017:
+        # the constant-altitude faces are flat triangles between 32 sampled azimuths: they bulge out of the cone by 1 / cos(step / 2)
+        lim = math.atan(math.tan(v / 2) / math.cos(h / 31 / 2))
+        ok = ok and abs(alt) <= lim + aslack
+    if view["mode"] != "in_visibleRegion":
+        ok = ok and all(abs(t) <= view["workspace"] / 2 + 1e-6 for t in p)
+    return ok
+
+
+def op_member(op, p, params):
+    mem, near = [], False
+    for s in op["operands"]:
+        pos = numpy.array([_ev(e, params) for e in s["pos"]])
+        M = _rot([_ev(e, params) for e in s["rot"]])
+        u = (M.T @ (numpy.array(p, dtype=float) - pos)) / (numpy.array(s["dims"], dtype=float) / 2)
+        if s["shape"] == "box":
+            mem.append(bool((numpy.abs(u) <= 1).all()))
+            near = near or abs(float(numpy.max(numpy.abs(u))) - 1) < 1e-3
+        else:
+            r = float(numpy.linalg.norm(u))
+            mem.append(r <= 1)
+            near = near or abs(r - 1) < 0.06        # the spheroid is an inscribed icosphere
+    return combine(op["op"], mem[0], mem[1]), mem, near
+
+
+def run_scenario(cfg):
+    out = dict(id=cfg["id"], **{"class": "scenario:" + cfg["family"]})
+    try:
+        import random as _random
+        import time
+        t0 = time.time()
+        from scenic.syntax.translator import scenarioFromString
+        _random.seed(cfg["seed"])
+        numpy.random.seed(cfg["seed"] % (2 ** 31))
+        scenario = scenarioFromString(cfg["program"], mode2D=False)
+        fam = cfg["family"]
+        bad, nbad, counts, outside = [], 0, None, 0
+        exp = None
+        if fam == "mesh":
+            exp = mesh_cells_expected(cfg["region"])
+        elif fam == "view":
+            exp = [1 / 8] * 8
+        if exp:
+            counts = [0] * len(exp)
+        n = 0
+        for i in range(cfg["n"]):
+            scene, _ = scenario.generate(maxIterations=4000, verbosity=0)
+            n += 1
+            params = {k: float(v) for k, v in scene.params.items() if isinstance(v, (int, float))}
+            poses = [([float(t) for t in o.position], o.orientation.r.as_matrix().tolist()) for o in scene.objects]
+            p = poses[-1][0]
+            cell, ok, info = None, True, {}
+            if fam == "mesh":
+                w = mesh_frame(cfg["region"], params, p)
+                ok = mesh_member(cfg["region"], w)
+                info = dict(canonical_coordinates=[float(t) for t in w])
+                cell = mesh_cell(cfg["region"], w) if ok else None
+            elif fam == "view":
+                view = cfg["view"]
+                rho, az, alt = view_frame(view, poses[view["observer"]], p)
+                ok = view_member(view, rho, az, alt, p)
+                info = dict(distance=rho, azimuth_deg=math.degrees(az), altitude_deg=math.degrees(alt), observer=poses[view["observer"]][0])
+                if ok:
+                    cell = (az > 0) * 4 + (alt > 0) * 2 + (rho > view["dist"] * 0.5 ** (1 / 3))
+            else:
+                want, mem, near = op_member(cfg["op"], p, params)
+                ok = want or near
+                info = dict(operand_membership=mem)
+            if not ok:
+                nbad += 1
+                if len(bad) < 3:
+                    bad.append(dict(scene_index=i, point=p, params=params, **info))
+            if counts is not None:
+                if cell is None:
+                    outside += 1 if not ok else 0
+                else:
+                    counts[int(cell)] += 1
+        out["n"] = n
+        out["seconds"] = round(time.time() - t0, 2)
+        out["nbad"] = nbad
+        out["bad_members"] = bad
+        out["cells"] = dict(expected=exp, counts=counts, outside=outside) if counts is not None else None
+    except RecursionError:
+        out["exc"] = "RecursionError"
+    except BaseException as e:  # noqa
+        import traceback
+        out["exc"] = type(e).__name__
+        out["msg"] = str(e)[:200] + traceback.format_exc()[-400:]
+    return out
+
+
+def run_placement(cfg):
+    """the vertices of a mesh region as Scenic places them, built (a) directly from concrete parameter values and (b) by SAMPLING the
+    region with random parameters (MeshRegion.sampleGiven), next to the input vertices: tie of MeshRegion.mesh / sampleGiven to
+    the model C03.Placement.place"""
+    out = dict(id=cfg["id"])
+    try:
+        import trimesh
+        import random as _random
+        from scenic.core.distributions import Range
+        reg = cfg["region"]
+        _random.seed(cfg["seed"])
+        params = {nm: _random.uniform(lo, hi) for nm, lo, hi in cfg["params"]}
+        shape = reg["shape"]
+        if shape in ("box", "meshbox"):
+            base = trimesh.creation.box((1, 1, 1))
+        elif shape == "sphere":
+            base = None
+        elif shape == "cyl":
+            base = trimesh.creation.cylinder(radius=1, height=1, sections=12)
+        else:
+            base = trimesh.creation.extrude_polygon(canon(shape)[2], 1.0)
+        if base is None:
+            out["skip"] = "sphere"
+            return out
+        base.apply_translation(reg["offset"])
+        pos = [_ev(e, params) for e in reg["pos"]]
+        rot = [_ev(e, params) for e in reg["rot"]] if reg["rot"] is not None else None
+        dims = [_ev(e, params) for e in reg["dims"]] if reg["dims"] is not None else None
+        cls = R.MeshSurfaceRegion if reg["surface"] else R.MeshVolumeRegion
+
+        def mk(lazy):
+            kw = dict(position=Vector(Range(pos[0], pos[0]), pos[1], pos[2]) if lazy else Vector(*pos), centerMesh=reg["center"])
+            if rot is not None:
+                kw["rotation"] = Orientation.fromEuler(*rot)
+            if dims is not None:
+                kw["dimensions"] = tuple(dims)
+            if reg["surface"]:
+                kw["orientation"] = None
+            return cls(base.copy(), **kw)
+
+        direct = mk(False)
+        sampled = mk(True).sample()
+        idx = list(range(len(base.vertices)))[:: max(1, len(base.vertices) // 4)][:4]
+        out.update(pos=pos, rot=rot, dims=dims, extents=[float(t) for t in base.extents], cc=[float(t) for t in numpy.array(base.bounds).mean(axis=0)],
+                   matrix=(_rot(rot) if rot is not None else numpy.eye(3)).tolist(),
+                   rows=[dict(v=[float(t) for t in base.vertices[i]], direct=[float(t) for t in direct.mesh.vertices[i]],
+                              sampled=[float(t) for t in sampled.mesh.vertices[i]]) for i in idx])
+    except BaseException as e:  # noqa
+        import traceback
+        out["exc"] = type(e).__name__
+        out["msg"] = str(e)[:200] + traceback.format_exc()[-400:]
+    return out
+
+
 def planar_cells(poly, pts, k):
     minx, miny, maxx, maxy = poly.bounds
     dx, dy = (maxx - minx) / k, (maxy - miny) / k
@@ -536,7 +795,9 @@ def main():
     if payload["kind"] == "discrete":
         out = dict(results=[run_discrete(c, payload["pool"]) for c in payload["configs"]])
     elif payload["kind"] == "continuous":
-        out = dict(results=[run_continuous(c) for c in payload["configs"]])
+        out = dict(results=[run_scenario(c) if c.get("kind") == "scen" else run_continuous(c) for c in payload["configs"]])
+    elif payload["kind"] == "placement":
+        out = dict(results=[run_placement(c) for c in payload["configs"]])
     else:
         raise SystemExit("unknown kind")
     print(json.dumps(out))
